@@ -251,8 +251,8 @@ protected:
         __m512 lo, hi;
         uint16_t mask0, mask1;
         split_mask<Size>(mask, mask0, mask1);
-        lo = _mm512_mask_load_ps(lo, mask0, reinterpret_cast<const float*>(data  ));
-        hi = _mm512_mask_load_ps(hi, mask1, reinterpret_cast<const float*>(data+8));
+        lo = _mm512_maskz_load_ps(mask0, reinterpret_cast<const float*>(data  ));
+        hi = _mm512_maskz_load_ps(mask1, reinterpret_cast<const float*>(data+8));
         arrange_from_load(value_r, value_i, lo, hi);
 #else
         int maska[Size];
@@ -272,8 +272,8 @@ protected:
         __m512 lo, hi;
         uint16_t mask0, mask1;
         split_mask<Size>(mask, mask0, mask1);
-        lo = _mm512_mask_loadu_ps(lo, mask0, reinterpret_cast<const float*>(data  ));
-        hi = _mm512_mask_loadu_ps(hi, mask1, reinterpret_cast<const float*>(data+8));
+        lo = _mm512_maskz_loadu_ps(mask0, reinterpret_cast<const float*>(data  ));
+        hi = _mm512_maskz_loadu_ps(mask1, reinterpret_cast<const float*>(data+8));
         arrange_from_load(value_r, value_i, lo, hi);
 #else
         int maska[Size];
@@ -785,8 +785,8 @@ protected:
         __m256 lo, hi;
         uint8_t mask0, mask1;
         split_mask<Size>(mask, mask0, mask1);
-        lo = _mm256_mask_load_ps(lo, mask0, reinterpret_cast<const float*>(data  ));
-        hi = _mm256_mask_load_ps(hi, mask1, reinterpret_cast<const float*>(data+4));
+        lo = _mm256_maskz_load_ps(mask0, reinterpret_cast<const float*>(data  ));
+        hi = _mm256_maskz_load_ps(mask1, reinterpret_cast<const float*>(data+4));
         arrange_from_load(value_r, value_i, lo, hi);
 #else
         int maska[Size];
@@ -806,8 +806,8 @@ protected:
         __m256 lo, hi;
         uint8_t mask0, mask1;
         split_mask<Size>(mask, mask0, mask1);
-        lo = _mm256_mask_loadu_ps(lo, mask0, reinterpret_cast<const float*>(data  ));
-        hi = _mm256_mask_loadu_ps(hi, mask1, reinterpret_cast<const float*>(data+4));
+        lo = _mm256_maskz_loadu_ps(mask0, reinterpret_cast<const float*>(data  ));
+        hi = _mm256_maskz_loadu_ps(mask1, reinterpret_cast<const float*>(data+4));
         arrange_from_load(value_r, value_i, lo, hi);
 #else
         int maska[Size];
@@ -1306,8 +1306,8 @@ protected:
         __m128 lo, hi;
         uint8_t mask0, mask1;
         split_mask<Size>(mask, mask0, mask1);
-        lo = _mm_mask_load_ps(lo, mask0, reinterpret_cast<const float*>(data  ));
-        hi = _mm_mask_load_ps(hi, mask1, reinterpret_cast<const float*>(data+2));
+        lo = _mm_maskz_load_ps(mask0, reinterpret_cast<const float*>(data  ));
+        hi = _mm_maskz_load_ps(mask1, reinterpret_cast<const float*>(data+2));
         arrange_from_load(value_r, value_i, lo, hi);
 #else
         int maska[Size];
@@ -1327,8 +1327,8 @@ protected:
         __m128 lo, hi;
         uint8_t mask0, mask1;
         split_mask<Size>(mask, mask0, mask1);
-        lo = _mm_mask_loadu_ps(lo, mask0, reinterpret_cast<const float*>(data  ));
-        hi = _mm_mask_loadu_ps(hi, mask1, reinterpret_cast<const float*>(data+2));
+        lo = _mm_maskz_loadu_ps(mask0, reinterpret_cast<const float*>(data  ));
+        hi = _mm_maskz_loadu_ps(mask1, reinterpret_cast<const float*>(data+2));
         arrange_from_load(value_r, value_i, lo, hi);
 #else
         int maska[Size];
